@@ -11,6 +11,7 @@ package main
 
 //@ uses dbft
 //@ runtags [C17]
+//@ opaque crypto.Uint256
 
 //@ extern dbft.(*DBFT).Start
 //@   modifies Context.blockProcessed
@@ -26,3 +27,20 @@ package main
 //@   loop 1: invariant n.d.Config.Timer != nil
 //@   loop 2: invariant n.d.Config.Timer != nil
 //@   at call n.d.Timer.C: assert [C17] @neverWaitsDecided !n.d.BlockSent()
+// a timer expiry is handed to the library with the epoch the timer was armed for (not the ledger's height)
+//@   at call n.d.OnTimeout: assert [C17] @timerEpoch arg0 == n.d.Timer.Height() && arg1 == n.d.Timer.View()
+
+// the example's ledger: an accepted block becomes the tip that the library is told about at the next Reset
+//@ extern Block.Transactions
+//@   ensures forall(k, 0, len(result), result[k] != nil)
+//@ pure Block.Index
+//@ pure Timer.Height
+//@ pure Timer.View
+//@ pure Block.Hash
+//@ func (*simNode).ProcessBlock
+//@   requires b != nil && n.d != nil && n.pool != nil
+//@   ensures [C17] @tipAdvances result == nil && n.height == b.Index() && n.lastHash == b.Hash()
+//@ func (*simNode).CurrentHeight
+//@   ensures [C17] @reportsTip result == n.height
+//@ func (*simNode).CurrentBlockHash
+//@   ensures [C17] @reportsTip result == n.lastHash
